@@ -63,6 +63,8 @@ type WSClient struct {
 	inFrag       bool
 	MaskKey      [4]byte
 	OfferDeflate bool
+	// Mod: carrier-level modifications of the upgrade request (early data, a connection that is already gone ...)
+	Mod func(*ReqSpec)
 }
 
 func (c *WSClient) query() string {
@@ -97,6 +99,9 @@ func (c *WSClient) Start() *Exchange {
 		h.Set("Sec-WebSocket-Extensions", "permessage-deflate; client_max_window_bits")
 	}
 	spec.Header = h
+	if c.Mod != nil {
+		c.Mod(&spec)
+	}
 	c.Ex = Do(c.W.Srv, spec)
 	return c.Ex
 }
